@@ -29,6 +29,7 @@ def plan(tier, seed):
         specs.append({'kind': 'random', 'count': 150 if tier == 'quick' else 600,
                       'maxlen': 4096 if tier == 'quick' else 65536})
     specs.append({'kind': 'file', 'count': 6 if tier == 'quick' else 40})
+    specs.append({'kind': 'file_shapes', 'count': 6 if tier == 'quick' else 30})
     specs.append({'kind': 'history', 'count': 40 if tier == 'quick' else 400})
     return specs
 
@@ -104,6 +105,9 @@ def run_shard(spec, ctx):
     elif kind == 'history':
         history(ctx, lua, rng, spec['count'])
         ctx.sample({'history': 'unicode_to_p8scii on a bare arrow without its variation selector, then all singles + 256 pairs'})
+    elif kind == 'file_shapes':
+        file_shapes(ctx, lua, rng, spec['count'])
+        ctx.sample({'file_shapes': 'lines over 64 KiB of UTF-8, multi-line tokens with glyphs on later lines, #include of .p8 with glyph bytes'})
     elif kind == 'file':
         from pico8.game.formatter.p8 import P8Formatter
         from pico8.game import game
@@ -154,6 +158,140 @@ def run_shard(spec, ctx):
                 ctx.violation('.p8 path changed code bytes', {'kind': 'file', 'code': code})
 
 
+def p8_roundtrip(code, version, entry, writer=None):
+    """code -> .p8 file (real writer; entry stream/path/cli) -> code of the re-read cart."""
+    import os
+    import tempfile
+    from pico8.lua import lua
+    from pico8.game.formatter.p8 import P8Formatter
+    from pico8.game import game, file as p8file
+    from pico8 import tool
+    g = game.Game.make_empty_game(version=version)
+    g.lua = lua.Lua.from_lines([code], version=version)
+    kw = {'lua_writer_cls': writer} if writer is not None else {}
+    if entry == 'stream':
+        buf = io.BytesIO()
+        P8Formatter.to_file(g, buf, **kw)
+        data = buf.getvalue()
+        data.decode('utf-8')
+        g2 = P8Formatter.from_file(io.BytesIO(data))
+    else:
+        with tempfile.TemporaryDirectory() as d:
+            p1 = os.path.join(d, 'c.p8')
+            p8file.to_file(g, p1, **kw)
+            open(p1, 'rb').read().decode('utf-8')
+            if entry == 'cli':
+                if tool.main(['-q', 'writep8', p1]):
+                    raise RuntimeError('writep8 failed')
+                g2 = p8file.from_file(os.path.join(d, 'c_fmt.p8'))
+            else:
+                g2 = p8file.from_file(p1)
+    return b''.join(g2.lua.to_lines())
+
+
+def file_shapes(ctx, lua, rng, count):
+    """Shapes of text in a .p8 file that a line-oriented converter could treat differently: physical lines whose Unicode spelling
+    exceeds 64 KiB, multi-line tokens whose later lines carry glyphs, code brought in by #include from another .p8."""
+    import os
+    import tempfile
+    from pico8.game import file as p8file
+    from pico8.game import game
+    multi = bytes((131, 139, 142, 145, 148))           # glyphs spelled with two code points (second: U+FE0F)
+    three = bytes(b for b in range(128, 256) if len(lua.p8scii_to_unicode(bytes([b])).encode('utf-8')) == 3 and b not in multi)
+    allglyph = bytes(range(16, 32)) + bytes(range(127, 256))
+    for i in range(count):
+        entry = ('stream', 'path', 'cli')[i % 3]
+        version = (8, 33, 0, 41)[i % 4]
+        # (a) one physical line of up to 30000 characters whose UTF-8 text exceeds 65536 bytes; the ASCII prefix shifts every boundary
+        pool = (three, multi, three + multi, allglyph)[i % 4]
+        n = (23000, 12000, 16000, 30000)[i % 4]
+        body = bytes(rng.choice(pool) for _ in range(n))
+        line = b'x' * (i % 7) + b'="' + body.replace(b'"', b'') + b'"\n'
+        code = b'a=1\n' + line + b'--' + bytes(rng.choice(allglyph) for _ in range(40)) + b'\nb=2\n'
+        utf8_len = len(lua.p8scii_to_unicode(line).encode('utf-8'))
+        ctx.case(code)
+        ctx.feature('long_line_cases')
+        if utf8_len > 65536:
+            ctx.feature('line_over_64k_utf8_bytes')
+        if utf8_len > 131072:
+            ctx.feature('line_over_128k_utf8_bytes')
+        try:
+            back = p8_roundtrip(code, version, entry)
+        except Exception as e:
+            ctx.violation('.p8 path (%s) raised %r on a line of %d characters (%d UTF-8 bytes)' % (entry, e, len(line), utf8_len),
+                          {'kind': 'file', 'code': code})
+            return
+        ctx.monitor('file_roundtrips')
+        if back != code:
+            ctx.violation('.p8 path changed code bytes on a line of %d characters (%d UTF-8 bytes)' % (len(line), utf8_len),
+                          {'kind': 'file', 'code': code})
+            return
+        # (b) multi-line tokens whose first physical line is plain and whose later lines carry glyphs
+        g1 = bytes(rng.choice(allglyph) for _ in range(rng.randint(1, 30))).replace(b']', b'')
+        g2 = bytes(rng.choice(allglyph) for _ in range(rng.randint(1, 30))).replace(b']', b'')
+        lvl = b'=' * (i % 3)
+        code = (b's=[' + lvl + b'[plain first line\n' + g1 + b'\nplain again\n' + g2 + b']' + lvl + b']\n'
+                b'--[' + lvl + b'[ plain\n' + g2 + b'\n' + g1 + b' ]' + lvl + b']\nt=[[\n' + g1 + b']] u=2\n')
+        ctx.case(code)
+        for writer, wname in ((None, 'echo'), (lua.LuaMinifyTokenWriter, 'luamin')):
+            try:
+                back = p8_roundtrip(code, version, entry, writer=writer)
+            except Exception as e:
+                ctx.violation('.p8 path (%s, %s writer) raised %r on multi-line tokens with glyphs on later lines' % (entry, wname, e),
+                              {'kind': 'file', 'code': code})
+                return
+            ctx.monitor('file_roundtrips')
+            ctx.feature('multiline_token_cases_' + wname)
+            if writer is None:
+                if back != code:
+                    ctx.violation('.p8 path changed code bytes inside a multi-line token', {'kind': 'file', 'code': code})
+                    return
+            else:
+                from .. import reflex
+                want = [t.value for t in reflex.sig(reflex.lex(code)) if t.kind == 'string']
+                try:
+                    got = [t.value for t in reflex.sig(reflex.lex(back)) if t.kind == 'string']
+                except Exception as e:
+                    got = repr(e)
+                if got != want:
+                    ctx.violation('.p8 path with the luamin writer changed the bytes of a multi-line string', {'kind': 'file', 'code': code})
+                    return
+        # (c) the same bytes arriving through #include of another .p8 / .lua file
+        inc_code = b'--' + bytes(b for b in rng.sample(list(allglyph), 60) if b not in (10, 13)) + b'\nq="' + bytes(
+            rng.choice(three + multi) for _ in range(50)) + b'"\n'
+        with tempfile.TemporaryDirectory() as d:
+            g = game.Game.make_empty_game(version=8)
+            g.lua = lua.Lua.from_lines([inc_code], version=8)
+            p8file.to_file(g, os.path.join(d, 'inc.p8'))
+            with open(os.path.join(d, 'inc2.lua'), 'wb') as fh:
+                fh.write(inc_code)
+            for target in ('inc.p8', 'inc2.lua'):
+                main = os.path.join(d, 'main.p8')
+                gm = game.Game.make_empty_game(version=8)
+                gm.lua = lua.Lua.from_lines([b'z=0\n'], version=8)
+                p8file.to_file(gm, main)
+                text = open(main, 'rb').read().replace(b'z=0\n', b'z=0\n#include ' + target.encode() + b'\ny=1\n')
+                with open(main, 'wb') as fh:
+                    fh.write(text)
+                ctx.case(inc_code + target.encode())
+                try:
+                    got = b''.join(p8file.from_file(main).lua.to_lines())
+                except Exception as e:
+                    ctx.violation('loading a cart that #includes %s (glyph bytes in the included code) raised %r' % (target, e),
+                                  {'kind': 'file', 'code': inc_code})
+                    return
+                ctx.monitor('file_roundtrips')
+                ctx.feature('include_cases_' + target.split('.')[-1])
+                if target.endswith('.lua'):
+                    # a .lua file holds what PICO-8 writes there: the same Unicode text a .p8 holds
+                    pass
+                if inc_code.rstrip(b'\n') not in got and target.endswith('.p8'):
+                    ctx.violation('code brought in by #include %s does not carry the included cart\'s bytes' % target,
+                                  {'kind': 'file', 'code': inc_code})
+                    return
+    ctx.feature('file_shapes_done')
+
+
 def history(ctx, lua, rng, count):
     """History monitor: conversions of arbitrary (also invalid) Unicode text happen between round trips; whatever they return
     or raise, the bijection must still hold afterwards."""
@@ -202,7 +340,8 @@ def gates(m, tier):
         missed.append('prefix check incomplete')
     if mon.get('file_roundtrips', 0) < 1:
         missed.append('.p8 path never exercised')
-    for k in ('file_version_0', 'file_version_33', 'file_entry_stream', 'file_entry_path', 'file_entry_cli', 'history_done'):
+    for k in ('file_version_0', 'file_version_33', 'file_entry_stream', 'file_entry_path', 'file_entry_cli', 'history_done', 'file_shapes_done',
+              'line_over_64k_utf8_bytes', 'multiline_token_cases_echo', 'multiline_token_cases_luamin', 'include_cases_p8'):
         if f.get(k, 0) < 1:
             missed.append('%s never seen' % k)
     if mon.get('foreign_conversions', 0) < 20:
